@@ -2,8 +2,9 @@
 """Exhaustive introspection of the operator dunders installed on the real
 classes by the metaclass machinery (finite table).  For every row of the
 property-side table: the dunder exists in the class __dict__, its code object
-is the nested `dunder` of the expected template (metaclass method name) and
-its closure cell `op_func` is the `operator` function the row names.
+is a function nested in the expected template (metaclass method name) and
+its closure holds exactly one `operator` function: the one the row names.
+Rows whose structure is not recognised are reported as such (undecided), not as mismatches.
 usage: optable.py <repo> <ClassName>   -> JSON rows"""
 import json, operator, sys
 
@@ -35,16 +36,29 @@ def main():
         row = {"dunder": dname, "operator": fn.__name__, "template": tmpl}
         d = cls.__dict__.get(dname)
         if d is None:
-            row.update(ok=False, why="not installed in the class __dict__")
+            row.update(ok=False, status="mismatch", why="not installed in the class __dict__")
         else:
+            # recognised structure: a function nested in the metaclass template method named by the row, whose closure
+            # holds exactly one function of the `operator` module (whatever the local names are)
             qual = getattr(d, "__qualname__", "")
-            cells = dict(zip(d.__code__.co_freevars, d.__closure__ or ()))
-            opf = cells.get("op_func")
-            want_qual = "%s.%s.<locals>.dunder" % (meta.__name__, tmpl)
-            ok = qual == want_qual and opf is not None and opf.cell_contents is fn
-            row.update(ok=ok, qualname=qual, op_func=getattr(getattr(opf, "cell_contents", None), "__name__", None))
-            if not ok:
-                row["why"] = "code object %s (expected %s), op_func %s (expected %s)" % (qual, want_qual, row["op_func"], fn.__name__)
+            cellvals = []
+            for cell in (getattr(d, "__closure__", None) or ()):
+                try:
+                    cellvals.append(cell.cell_contents)
+                except ValueError:
+                    pass
+            ops = [v for v in cellvals if getattr(v, "__module__", None) in ("_operator", "operator") and callable(v)]
+            parts = qual.split(".")
+            tmpls = [t for t in ("__binary__", "__rbinary__", "__unary__") if t in parts]
+            row.update(qualname=qual, op_func=[getattr(v, "__name__", None) for v in ops])
+            if len(ops) != 1 or len(tmpls) != 1 or "<locals>" not in parts or parts[0] != meta.__name__:
+                row.update(ok=False, status="unrecognised",
+                           why="structure not recognised (code object %s, operator functions in its closure: %s)" % (qual, row["op_func"]))
+            elif ops[0] is fn and tmpls[0] == tmpl:
+                row.update(ok=True, status="ok")
+            else:
+                row.update(ok=False, status="mismatch", why="built by %s with operator.%s (the table says %s with operator.%s)" % (
+                    tmpls[0], ops[0].__name__, tmpl, fn.__name__))
         out.append(row)
     json.dump(out, sys.stdout)
 
